@@ -12,9 +12,15 @@ EXIT_OK, EXIT_VIOLATION, EXIT_UNDECIDED, EXIT_CRASH = 0, 1, 2, 3
 
 
 def load_known():
-    if not os.path.exists(KNOWN):
-        return []
-    return json.load(open(KNOWN))["findings"]
+    out = []
+    if os.path.exists(KNOWN):
+        out += json.load(open(KNOWN))["findings"]
+    d = os.path.join(ROOT, "known_findings.d")
+    if os.path.isdir(d):
+        for fn in sorted(os.listdir(d)):
+            if fn.endswith(".json"):
+                out += json.load(open(os.path.join(d, fn)))["findings"]
+    return out
 
 
 class Run:
